@@ -75,7 +75,7 @@ theorem declIds_frame : ∀ (ds : List (Str × Str)) (env : Env),
 /-! ### The attribute tokens of a start tag -/
 
 def NSAttr.builder (a : NSAttr) : AttributeBuilder :=
-  { pfx := a.pfx.text, name := a.loc.text, value := a.value,
+  { pfx := a.pfx.text, name := a.loc.text, value := valueOf true a.pieces,
     nameSpan := Span.fromPrefixName a.pfx a.loc,
     valueSpan := (⟨renderPieces a.pieces, a.vstart⟩ : StrSpan).span,
     prefixSpan := a.pfx.span }
@@ -116,7 +116,7 @@ theorem step_decl {b : Builder} {eb : ElementBuilder} (heb : b.eb = some eb) (a 
     · simp only [h2] at hd
       cases hd
 
-/-- An ordinary attribute item: decoded, normalised, collected. -/
+/-- An ordinary attribute item: decoded, normalised as an attribute value, collected. -/
 theorem step_ord {b : Builder} {eb : ElementBuilder} (heb : b.eb = some eb) (a : NSAttr)
     (hd : a.declares = none) (hw : WellSpelled a.pieces)
     (hnew : (eb.attributes.any fun ab => ab.pfx == a.pfx.text && ab.name == a.loc.text) = false) :
@@ -265,7 +265,13 @@ theorem addAttributes_ns (frames' : List (List (Str × Str))) (node : Path) :
     have hrn : st.env.internNamespace u = (st.env, st.env.namespaces.idxOf u) := internNamespace_of_mem hu
     rw [hrn] at hname
     simp only at hname
-    have hden : a.denote (flatScope frames') = ((u, a.loc.text), a.value) := by simp [NSAttr.denote, hU]
+    have hden : a.denote (flatScope frames') = ((u, a.loc.text), a.value (flatScope frames')) := by
+      simp [NSAttr.denote, hU]
+    have hvalue : a.value (flatScope frames') =
+        if ((u, a.loc.text) == (xmlNsUri, ['i', 'd'])) = true then normalizeXmlId (valueOf true a.pieces)
+        else valueOf true a.pieces := by
+      simp only [NSAttr.value, hU]
+    generalize a.value (flatScope frames') = av at hden hvalue
     have happ := internName_app st.env a.loc.text (st.env.namespaces.idxOf u)
     have hget := internName_get st.env a.loc.text (st.env.namespaces.idxOf u)
     simp only [List.map_cons, hden] at hnd hseen hidn hidd ⊢
@@ -301,23 +307,25 @@ theorem addAttributes_ns (frames' : List (List (Str × Str))) (node : Path) :
         rw [idxOf_app happ.2.1 hkm]; exact happ.names_get hkg
       · refine ⟨(u, a.loc.text), hknew, mem_ext happ.2.1 hu, ?_⟩
         rw [idxOf_app happ.2.1 hu]; exact hget
-    simp only [addAttributes, NSAttr.builder, hname, hnew, Bool.false_eq_true, if_false, hidtest]
+    simp only [addAttributes, NSAttr.builder, xmlIdValue, hname, hnew, Bool.false_eq_true, if_false, hidtest]
     cases hid : ((u, a.loc.text) == (xmlNsUri, ['i', 'd'])) with
     | true =>
-      have hids : attrIds (((u, a.loc.text), a.value) :: rest.map (NSAttr.denote (flatScope frames'))) =
-          a.value :: attrIds (rest.map (NSAttr.denote (flatScope frames'))) := by
+      simp only [hid, if_true] at hvalue
+      rw [← hvalue]
+      have hids : attrIds (((u, a.loc.text), av) :: rest.map (NSAttr.denote (flatScope frames'))) =
+          av :: attrIds (rest.map (NSAttr.denote (flatScope frames'))) := by
         simp [attrIds, hid]
       rw [hids] at hidn hidd ⊢
       obtain ⟨hvnew, hidn'⟩ := List.nodup_cons.mp hidn
-      have hnc : st.seenIds.contains a.value = false := by
+      have hnc : st.seenIds.contains av = false := by
         rw [Bool.eq_false_iff]; intro hc
-        exact hidd a.value (by simp) (by simpa using hc)
+        exact hidd av (by simp) (by simpa using hc)
       simp only [hnc, Bool.and_false, Bool.false_eq_true, if_false, if_true]
       obtain ⟨st', hr, he, hk, hs⟩ := ih
-        { env := (st.env.internName a.loc.text (st.env.namespaces.idxOf u)).1, seenIds := a.value :: st.seenIds,
-          idNodes := insertId st.idNodes a.value node,
+        { env := (st.env.internName a.loc.text (st.env.namespaces.idxOf u)).1, seenIds := av :: st.seenIds,
+          idNodes := insertId st.idNodes av node,
           seenNames := st.seenNames ++ [(st.env.internName a.loc.text (st.env.namespaces.idxOf u)).2],
-          rkids := .node (.attribute (st.env.internName a.loc.text (st.env.namespaces.idxOf u)).2 a.value) [] :: st.rkids,
+          rkids := .node (.attribute (st.env.internName a.loc.text (st.env.namespaces.idxOf u)).2 av) [] :: st.rkids,
           aspans := st.aspans ++ [((st.env.internName a.loc.text (st.env.namespaces.idxOf u)).2,
             Span.fromPrefixName a.pfx a.loc, (⟨renderPieces a.pieces, a.vstart⟩ : StrSpan).span)] }
         hE hF (fun x hx => hpre x (by simp [hx])) hseen' hnd' hidn'
@@ -334,7 +342,9 @@ theorem addAttributes_ns (frames' : List (List (Str × Str))) (node : Path) :
       · rw [hk]; simp [encodeNsAttrs, hrn]
       · rw [hs]; simp
     | false =>
-      have hids : attrIds (((u, a.loc.text), a.value) :: rest.map (NSAttr.denote (flatScope frames'))) =
+      simp only [hid, Bool.false_eq_true, if_false] at hvalue
+      rw [← hvalue]
+      have hids : attrIds (((u, a.loc.text), av) :: rest.map (NSAttr.denote (flatScope frames'))) =
           attrIds (rest.map (NSAttr.denote (flatScope frames'))) := by
         simp [attrIds, hid]
       rw [hids] at hidn hidd ⊢
@@ -343,7 +353,7 @@ theorem addAttributes_ns (frames' : List (List (Str × Str))) (node : Path) :
         { env := (st.env.internName a.loc.text (st.env.namespaces.idxOf u)).1, seenIds := st.seenIds,
           idNodes := st.idNodes,
           seenNames := st.seenNames ++ [(st.env.internName a.loc.text (st.env.namespaces.idxOf u)).2],
-          rkids := .node (.attribute (st.env.internName a.loc.text (st.env.namespaces.idxOf u)).2 a.value) [] :: st.rkids,
+          rkids := .node (.attribute (st.env.internName a.loc.text (st.env.namespaces.idxOf u)).2 av) [] :: st.rkids,
           aspans := st.aspans ++ [((st.env.internName a.loc.text (st.env.namespaces.idxOf u)).2,
             Span.fromPrefixName a.pfx a.loc, (⟨renderPieces a.pieces, a.vstart⟩ : StrSpan).span)] }
         hE hF (fun x hx => hpre x (by simp [hx])) hseen' hnd' hidn hidd
